@@ -68,7 +68,7 @@ def cases(tier, seed, shard, nshards):
                "cancel_task": rng.randrange(nt) if rng.random() < 0.4 else None,
                "lock_susp": rng.choice([[0, 0], [0, 0], [1, 0], [0, 1]]),
                "runs": DFS_LIMIT[tier] if mode == "dfs" else RANDOM_RUNS[tier], "seed": rng.randrange(1 << 30),
-               "exc": rng.choice(PLANNED_NAMES)}
+               "exc": rng.choice(PLANNED_NAMES), "global_lock": rng.random() < 0.3}
 
 
 def _planned(case):
@@ -225,9 +225,31 @@ class RegLock(VLock):
         RegLock.registry.append(self)
 
 
+class GlobalLock:
+    """A lock TYPE whose instances all serialise on one underlying lock ("one expensive fetch at a time", backed
+    by a module-level lock): not re-entrant, so nothing may wait for a second instance while holding a first."""
+    shared = None
+
+    def __init__(self):
+        if GlobalLock.shared is None:
+            GlobalLock.shared = VLock("global", susp_enter=RegLock.SUSP[0], susp_exit=RegLock.SUSP[1])
+            RegLock.registry.append(GlobalLock.shared)
+
+    def __bool__(self):
+        return False
+
+    async def __aenter__(self):
+        await GlobalLock.shared.__aenter__()
+        return self
+
+    async def __aexit__(self, *exc):
+        return await GlobalLock.shared.__aexit__(*exc)
+
+
 def execute(case, choose, cancel_at=None):
     CTX.reset()
     RegLock.registry = []
+    GlobalLock.shared = None
     RegLock.SUSP = tuple(case.get("lock_susp", (0, 0)))
     clock = {"t": 0}
     runs = {}  # rid -> dict(start, end, outcome, value)
@@ -261,7 +283,8 @@ def execute(case, choose, cancel_at=None):
         finally:
             state["active"] -= 1
 
-    prop = A.cached_property(RegLock)(getter) if case["lock"] else A.cached_property(getter)
+    lock_type = GlobalLock if case.get("global_lock") else RegLock
+    prop = A.cached_property(lock_type)(getter) if case["lock"] else A.cached_property(getter)
     K = type("K", (), {"p": prop, "__bool__": lambda self: False, "__len__": lambda self: 0})
     prop.__set_name__(K, "p")
     inst = K()
